@@ -186,9 +186,9 @@ func (c *CVMContract) execute(st engine.State, params engine.CallParams) ([]byte
 			c.debugf(" %v ** %v = %v (%v)\n", x, y, pow, res)
 
 		case SIGNEXTEND: // 0x0B
-			back := stack.PopBigInt().Uint64()
-			if back < Word256Bytes-1 {
-				bits := uint((back + 1) * 8)
+			back := stack.PopBigInt()
+			if back.IsUint64() && back.Uint64() < Word256Bytes-1 {
+				bits := uint((back.Uint64() + 1) * 8)
 				stack.PushBigInt(SignExtend(stack.PopBigInt(), bits))
 			}
 			// Continue leaving the sign extension argument on the stack. This makes sign-extending a no-op if embedded
